@@ -115,12 +115,18 @@ def sha(path):
 
 # ---------------------------------------------------------------- known findings
 def known_findings(pid):
-    path = os.path.join(VERIF, 'known_findings.jsonl')
+    """entries with status 'known' for this property from known_findings.jsonl and known_findings.d/*.jsonl"""
+    paths = [os.path.join(VERIF, 'known_findings.jsonl')]
+    ddir = os.path.join(VERIF, 'known_findings.d')
+    if os.path.isdir(ddir):
+        paths += [os.path.join(ddir, f) for f in sorted(os.listdir(ddir)) if f.endswith('.jsonl')]
     out = []
-    if os.path.exists(path):
+    for path in paths:
+        if not os.path.exists(path):
+            continue
         for line in open(path):
             line = line.strip()
-            if not line or line.startswith('#'):
+            if not line or line.startswith('#') or line.startswith('fixed:'):
                 continue
             e = json.loads(line)
             if e.get('property') == pid and e.get('status') == 'known':
